@@ -71,12 +71,13 @@ func Connect(opt ch.Options, hello refwire.ServerHello) (*Conn, error) {
 
 // Step is one step of a scripted peer.
 type Step struct {
-	Name   string
-	AwaitN int           // wait until this many complete client packets have arrived (0: no wait)
-	Send   []byte        // then send these bytes
-	Gap    time.Duration // then let fake time pass
-	Cut    bool          // then end the server stream
-	Term   bool          // after this step the server has finished the query (EndOfStream / Exception)
+	Name    string
+	AwaitN  int                     // wait until this many complete client packets have arrived (0: no wait)
+	AwaitFn func(pk []CPacket) bool // or until this predicate holds on the packets parsed so far
+	Send    []byte                  // then send these bytes
+	Gap     time.Duration           // then let fake time pass
+	Cut     bool                    // then end the server stream
+	Term    bool                    // after this step the server has finished the query (EndOfStream / Exception)
 }
 
 // Inject describes a gate-level fault: at gate G (before step G; G == len(steps) means
@@ -102,7 +103,7 @@ func (c *Conn) RunPeer(name string, base int, steps []Step, inj *Inject) {
 				return
 			}
 			st := steps[g]
-			if st.AwaitN > 0 {
+			if st.AwaitN > 0 || st.AwaitFn != nil {
 				closed := false
 				c.C.Await(func(out []byte, cl bool) bool {
 					if cl {
@@ -110,6 +111,9 @@ func (c *Conn) RunPeer(name string, base int, steps []Step, inj *Inject) {
 						return true
 					}
 					pk, _, err := ParseClient(out[base:], c.W)
+					if st.AwaitFn != nil {
+						return err != nil || st.AwaitFn(pk)
+					}
 					return err != nil || len(pk) >= st.AwaitN
 				})
 				if closed {
